@@ -1,6 +1,6 @@
 """C12 Third-order response: exact orientational average, additivity, symmetry.
 
-E-grid, three complete products.
+E-grid, five complete products.
 
 Section `lab` (prefactor clause at the level of LabSetup.F4eM4 / liouville_pathway.build /
 orientational_averaging): every polarisation four-tuple from {X, Y, Z, (X+Y)/sqrt2, magic-angle
@@ -51,6 +51,34 @@ the same api reproduces, while the api agrees with calculate_one_system at s = 1
 calculate_all_system was compared with squared dipoles; fixed in /repo).  `lab` (thorough): all
 dipole four-tuples x s.
 A reference oracle that fails only for s != 1 gets the key suffix `/only-scaled-dipoles`.
+
+Section `wait` (the whole waiting-time axis): product size x site energies x coupling x topology
+x line widths x line shape x dynamics; inside EVERY point ALL waiting times of an axis that is
+longer than the longest coherence period of the one-exciton block (quick: two molecules 0..120 fs,
+three 0..230 fs, step 10 fs; thorough: 0..230 fs, step 5 fs), so that every coherence element of the (Lindblad,
+complex) evolution superoperator passes through all four quadrants of the complex plane, x every
+base polarisation setting.  At EVERY waiting time: uncoupled (sum of the separately calculated
+molecules at the same waiting time), census (generated pathways per type == the count the
+evolution superoperator and the transition dipoles allow, mc/refmodels/pathway_census.py),
+pref (prefactors as made), total (sum, re-read, ledger).  Keys `wait/...`; the message lists
+all waiting times at which the key fails.
+
+Section `hist` (histories of ONE aggregate object before the response is calculated): operation
+alphabet = requests a user makes on the aggregate, none of which changes the system:
+get_DensityMatrix() for every condition type (stored / thermal / thermal 300 K / impulsive
+excitation / thermal excited state at 0 and 300 K), get_StateVector(impulsive), diagonalize()
+again, get_Hamiltonian, get_TransitionDipoleMoment, liouville_pathways_1, liouville_pathways_3T
+of one type, a linear spectrum with MockAbsSpectrumCalculator, an earlier 2D calculation with
+another calculator.  ALL sequences of length 0..2 (quick) / 0..3 (thorough) in the product
+system (uncoupled / coupled dimer; thorough also single molecule, dimer without two-exciton
+band, uncoupled trimer) x start state x line shape x api (quick: Gaussian and
+calculate_one_system only); after every history the response is calculated (new calculator,
+polarisations XMDZ, every waiting time of the api: 0, 20 fs / 0, 10, 20 fs) and compared with the
+response of a NEW aggregate object (`hist/<api>/fresh-differs`, `.../pathway-census`); the
+reference oracles uncoupled (molecules as new objects), pref, total are applied to it as well.
+A failing history is reduced to its shortest failing sub-history, which names the key
+(`after=<request>[><request>]`).  Start-state dimension: every history is run on an aggregate that
+was built and diagonalised and on one that was only built (`.../aggregate-not-diagonalized/...`).
 
 Clauses and oracles (tolerance class R everywhere: 1e-10 * scale)
   pref      pathway.pref == sign * rho0 * evolution factor * <prod_k e_k . R d_k>_SO(3), the average
@@ -307,14 +335,15 @@ class Bench:
     """Everything that does not depend on dipoles or polarisations: one-exciton Hamiltonian,
     evolution superoperator of the waiting time, calculator with its frequency axes."""
 
-    def __init__(self, spec):
+    def __init__(self, spec, t2axis=None):
         qr = isolation.qr()
         from quantarhei.spectroscopy.mocktwodcalculator import MockTwoDResponseCalculator
         self.spec = spec
         n = spec["n"]
         agg1 = build_aggregate(spec, 1)
         H = agg1.get_Hamiltonian()
-        t2a = qr.TimeAxis(*T2AXIS)
+        self.H = H
+        t2a = qr.TimeAxis(*(T2AXIS if t2axis is None else t2axis))
         ops, rates = [], []
         if spec["dyn"] == "relax":
             with qr.eigenbasis_of(H):
@@ -344,13 +373,14 @@ class Bench:
         agg.diagonalize()
         return agg
 
-    def response(self, agg, lab):
-        """(signals dict, pathway list) of the real pipeline."""
+    def response(self, agg, lab, t2=None):
+        """(signals dict, pathway list) of the real pipeline (waiting time of the spec, or t2)."""
         qr = isolation.qr()
+        t2 = self.spec["t2"] if t2 is None else float(t2)
         pw = {}
-        tw = self.calc.calculate_one_system(self.spec["t2"], agg, self.eUt, lab, pways=pw)
+        tw = self.calc.calculate_one_system(t2, agg, self.eUt, lab, pways=pw)
         self.ncalc += 1
-        return read_response(tw), pw[str(self.spec["t2"])]
+        return read_response(tw), pw[str(t2)]
 
 
 def read_response(tw):
@@ -1057,12 +1087,438 @@ def eval_reuse(case, tier):
 
 
 # ------------------------------------------------------------------------------------------
+# section `wait`: the whole waiting-time axis
+# ------------------------------------------------------------------------------------------
+# t2 axes (start, points, step in fs) per number of molecules.  The slowest coherence between
+# one-exciton states: quick (heterodimer 12000 / 12300, gap >= 300 1/cm, period <= 111 fs;
+# uncoupled hetero-trimer, gap 150 1/cm, period 222 fs); thorough also the homodimer with J = 80
+# (gap 160 1/cm, period 208 fs).  Every axis covers more than the longest period, so every
+# coherence element of the evolution superoperator visits all four quadrants of the complex
+# plane (this is what makes a case non-trivial; the uncoupled homodimer has no oscillating
+# coherence and stays trivial).
+WAIT_AXIS = {"quick": {2: (0.0, 13, 10.0), 3: (0.0, 24, 10.0)},
+             "thorough": {2: (0.0, 47, 5.0), 3: (0.0, 47, 5.0)}}
+
+
+def quadrants(z):
+    """Set of quadrants (sign of real part, sign of imaginary part) a list of numbers visits;
+    numbers on an axis count for neither side."""
+    return set((bool(x.real > 0), bool(x.imag > 0)) for x in z if x.real != 0 and x.imag != 0)
+
+
+def eval_wait(case, tier):
+    from mc.refmodels import pathway_census as CEN
+    qr = isolation.qr()
+    spec = spec_of(case)
+    n, shape = spec["n"], spec["shape"]
+    axis = WAIT_AXIS[tier][n]
+    viol, dev = {}, {}
+    failing = {}                    # key -> waiting times at which it fails
+
+    def add(key, t2, what, det=None):
+        if float(t2) not in failing.setdefault(key, []):
+            failing[key].append(float(t2))
+        if key not in viol:
+            viol[key] = [key, what, dict(det or {}, t2=float(t2))]
+
+    def worst(name, x):
+        x = float(x) if numpy.isfinite(x) else 1e300
+        dev[name] = max(dev.get(name, 0.0), x)
+
+    bench = Bench(spec, t2axis=axis)
+    agg = bench.system()
+    ntot = agg.HH.shape[0]
+    bases = POLBASES[tier]
+    labs = {b: make_lab(polvec(b)) for b in bases}
+    uncoupled = case["J"] == 0
+    lwtag = "equal-widths" if case["lw"] != "mixed" else "unequal-widths"
+    monob = [Bench(monomer_spec(spec, m), t2axis=axis) for m in range(n)] if uncoupled else []
+    maggs = [mb.system() for mb in monob]
+    t2s = [float(t) for t in qr.TimeAxis(*axis).data]
+    coh = []                        # a coherence element of the superoperator along the axis
+    ambiguous = 0
+    digest = []
+    npw_max = 0
+    for t2 in t2s:
+        with qr.eigenbasis_of(bench.H):
+            U = numpy.array(bench.eUt.at(t2).data, dtype=complex)
+        coh.append(complex(U[1, 2, 1, 2]))
+        res = {b: bench.response(agg, labs[b], t2=t2) for b in bases}
+        pws = res[bases[0]][1]
+        npw_max = max(npw_max, len(pws))
+        r0 = res[bases[0]][0]
+        digest.append(round(float(numpy.max(numpy.abs(r0["total"]))), 6))
+        # ---- census against the reference count (evolution superoperator, dipoles)
+        ref, amb = CEN.expected_census(U, agg.D2, n, ntot)
+        if ref is None:
+            ambiguous += 1
+        else:
+            for b in bases:
+                cen = census(res[b][1])
+                if cen != ref:
+                    add("wait/census/%s" % census_diff(cen, ref), t2,
+                        "t2=%g: generated pathways %s, but the evolution superoperator and the "
+                        "transition dipoles allow %s (polarisations %s)"
+                        % (t2, sorted(cen.items()), sorted(ref.items()), b),
+                        {"polarisations": b})
+                    break
+        for b in bases:
+            r, p = res[b]
+            where = "t2=%g, polarisations %s" % (t2, b)
+            # ---- pref on the prefactors as the pipeline made them
+            if p:
+                rel, got, refp = pref_as_made(agg, p, polvec(b))
+                worst("wait-pref", numpy.max(rel))
+                if not numpy.max(rel) <= TOL:
+                    ip = int(numpy.argmax(rel))
+                    add("wait/pref/pathway/%s/value" % p[ip].pathway_name, t2,
+                        "pathway #%d %s transitions %s: pref=%r but sign*rho0*evf*<SO(3) "
+                        "average>=%r (rel.dev %.3g); %s"
+                        % (ip, p[ip].pathway_name, p[ip].transitions.tolist(),
+                           complex(got[ip]), complex(refp[ip]), float(rel[ip]), where),
+                        {"polarisations": b})
+            # ---- total
+            sc = max(float(numpy.max(numpy.abs(r["REPH"]))),
+                     float(numpy.max(numpy.abs(r["NONR"]))), 1e-300)
+            if r.get("_reread", 0.0) > TOL * sc:
+                add("wait/total/reread-differs/%s" % shape, t2,
+                    "reading total, REPH, total, NONR again from the same response object "
+                    "differs from the first reads by %.3g; %s" % (r["_reread"] / sc, where))
+            d = float(numpy.max(numpy.abs(r["total"] - (r["REPH"] + r["NONR"])))) / sc
+            worst("wait-total-sum", d)
+            if not d <= TOL:
+                add("wait/total/sum/%s" % shape, t2,
+                    "total differs from REPH+NONR by %.3g (relative); %s" % (d, where))
+        led = {"R": 0.0, "NR": 0.0}
+        for q in pws:
+            led[q.pathway_type] = led[q.pathway_type] + bench.calc.calculate_pathway(q,
+                                                                                    shape=shape)
+        for typ, name in (("R", "REPH"), ("NR", "NONR")):
+            sc = max(float(numpy.max(numpy.abs(r0[name]))), 1e-300)
+            d = float(numpy.max(numpy.abs(r0[name] - led[typ]))) / sc
+            worst("wait-ledger", d)
+            if not d <= TOL:
+                add("wait/total/ledger/%s/%s" % (name, shape), t2,
+                    "%s part differs from the sum over the generated %s-type pathways by %.3g "
+                    "(relative; t2=%g)" % (name, typ, d, t2))
+        # ---- uncoupled aggregate == sum of its molecules, at this waiting time
+        if uncoupled:
+            for b in bases:
+                tot = {sg: 0.0 for sg in SIGNALS}
+                for mb, ma in zip(monob, maggs):
+                    rm, _ = mb.response(ma, labs[b], t2=t2)
+                    for sg in SIGNALS:
+                        tot[sg] = tot[sg] + rm[sg]
+                d, sg = sig_dev(res[b][0], tot)
+                worst("wait-uncoupled", d)
+                if not d <= TOL:
+                    sig = (esa_dephasing_signature(agg, res[b][1], spec)
+                           if shape == "Lorentzian" else None)
+                    add("wait/uncoupled/%s/%s%s/%s" % (shape, lwtag, "/" + sig if sig else "", sg),
+                        t2, "t2=%g: %s signal of the uncoupled %d-mer differs from the sum over "
+                        "its molecules built separately by %.3g (relative; polarisations %s, "
+                        "line widths %s 1/cm); coherence element U[1,2,1,2]=%r"
+                        % (t2, sg, n, d, b, spec["lw"], coh[-1]),
+                        {"polarisations": b, "failing": sg})
+    out = []
+    for key, (k, what, det) in viol.items():
+        det["failing_t2"] = failing[key]
+        out.append((k, what + " [fails at %d of %d waiting times: %s]"
+                    % (len(failing[key]), len(t2s), failing[key][:12]), det))
+    quad = quadrants(coh)
+    nontrivial = bool(npw_max > 0 and max(digest) > 0.0 and len(quad) == 4
+                      and ambiguous < len(t2s))
+    outcome = ["wait", n, case["en"], case["J"], case["topo"], case["lw"], shape, case["dyn"],
+               digest, len(quad), ambiguous]
+    return {"nontrivial": nontrivial, "outcome": outcome, "violations": out,
+            "n": bench.ncalc + sum(mb.ncalc for mb in monob) - 1,
+            "info": {"dev": dev, "unbuildable": 0, "npw": npw_max,
+                     "census_ambiguous": ambiguous}}
+
+
+# ------------------------------------------------------------------------------------------
+# section `hist`: histories of ONE aggregate object before the response is calculated
+# ------------------------------------------------------------------------------------------
+# operation alphabet: requests a user makes on the aggregate (none of them changes the system)
+HIST_OPS_ALL = ["rho:stored", "rho:thermal", "rho:thermal:300K", "rho:impulsive", "rho:excited",
+                "rho:excited:300K", "psi:impulsive", "diagonalize", "hamiltonian", "dipole",
+                "pathways1", "pathways3", "abs", "twod"]
+HIST_OPS = {"quick": ["rho:stored", "rho:thermal", "rho:impulsive", "rho:excited",
+                      "psi:impulsive", "diagonalize", "pathways1", "pathways3", "abs", "twod"],
+            "thorough": HIST_OPS_ALL}
+HIST_DEPTH = {"quick": 2, "thorough": 3}
+HIST_POLS = {"quick": ["XMDZ"], "thorough": ["XMDZ"]}
+HIST_SYSTEMS = {"quick": ["d2:J0", "d2:J80"],
+                "thorough": ["m0", "d1:J0", "d2:J0", "d2:J80", "t2:J0"]}
+# state of the aggregate object at the start of a history: "diagonalized" = build(mult) and
+# diagonalize() as everywhere else in this driver; "built" = build(mult) only (the pathway
+# generators diagonalise the aggregate themselves).  The reference is always a new aggregate that
+# was built and diagonalised by hand.  A deviation that the start state alone produces (empty
+# history) has the key `hist/<api>/aggregate-not-diagonalized/<kind>` (an inverted guard made the
+# generators skip the diagonalisation; fixed in /repo).
+HIST_STARTS = ["diagonalized", "built"]
+
+
+def hist_apply(op, agg, S, lab, shape):
+    """One request on the aggregate object; the result is thrown away."""
+    qr = isolation.qr()
+    if op == "rho:stored":
+        # "the density matrix calculated sometime in the past": not applicable (an
+        # AttributeError) to an aggregate that has none yet, i.e. was neither diagonalised nor
+        # asked for a density matrix; the request is then left out of the history
+        if hasattr(agg, "rho0"):
+            agg.get_DensityMatrix()
+    elif op == "rho:thermal":
+        agg.get_DensityMatrix(condition_type="thermal")
+    elif op == "rho:thermal:300K":
+        agg.get_DensityMatrix(condition_type="thermal", temperature=300.0)
+    elif op == "rho:impulsive":
+        agg.get_DensityMatrix(condition_type="impulsive_excitation")
+    elif op == "rho:excited":
+        agg.get_DensityMatrix(condition_type="thermal_excited_state")
+    elif op == "rho:excited:300K":
+        agg.get_DensityMatrix(condition_type="thermal_excited_state", temperature=300.0)
+    elif op == "psi:impulsive":
+        agg.get_StateVector(condition_type="impulsive_excitation")
+    elif op == "diagonalize":
+        agg.diagonalize()
+    elif op == "hamiltonian":
+        agg.get_Hamiltonian()
+    elif op == "dipole":
+        agg.get_TransitionDipoleMoment()
+    elif op == "pathways1":             # first-order pathways, as a linear-spectrum script does
+        agg.liouville_pathways_1(lab=lab)
+    elif op == "pathways3":             # third-order pathways of one type, asked for directly
+        agg.liouville_pathways_3T(ptype=("R3g",), eUt=S.eUt.at(0.0), ham=S.eUt.get_Hamiltonian(),
+                                  t2=0.0, lab=lab)
+    elif op == "abs":                   # a linear absorption spectrum of the same aggregate
+        mac = qr.MockAbsSpectrumCalculator(qr.TimeAxis(0.0, N13, DT13), system=agg)
+        with qr.energy_units("1/cm"):
+            mac.bootstrap(rwa=RWA, shape=shape)
+        mac.calculate()
+    elif op == "twod":                  # an earlier 2D calculation (other calculator, XXXX, 10 fs)
+        new_calculator(shape).calculate_one_system(10.0, agg, S.eUt, make_lab(polvec("XXXX")))
+    else:
+        raise ValueError(op)
+
+
+def subsequences(h):
+    """All proper subsequences of the tuple h (the empty one first), shortest first, in a fixed
+    order."""
+    out = []
+    for k in range(0, len(h)):
+        for idx in itertools.combinations(range(len(h)), k):
+            t = tuple(h[i] for i in idx)
+            if t not in out:
+                out.append(t)
+    return out
+
+
+def eval_hist(case, tier):
+    shape, api, first, depth, start = (case["shape"], case["api"], case["first"], case["depth"],
+                                       case["start"])
+    name = case["sys"]
+    t2s = REUSE_T2[api]
+    ops = HIST_OPS[tier]
+    pols = HIST_POLS[tier]
+    labs = {b: make_lab(polvec(b)) for b in pols}
+    lwtag = "equal-widths" if case["lw"] != "mixed" else "unequal-widths"
+    mult = dict(REUSE_SYSTEMS)[name][3]
+    viol, dev = {}, {}
+    count = {"calc": 0, "hist": 0}
+
+    def worst(nm, x):
+        x = float(x) if numpy.isfinite(x) else 1e300
+        dev[nm] = max(dev.get(nm, 0.0), x)
+
+    S = ReuseSystem(case, name)             # spec, evolution superoperator, a reference object
+    holder = types.SimpleNamespace(agg=None, eUt=S.eUt)
+
+    def new_aggregate():
+        a = build_aggregate(S.spec, mult)
+        if start == "diagonalized":
+            a.diagonalize()
+        return a
+
+    # reference of the differential oracle: a fresh aggregate (built, diagonalised) and a fresh
+    # calculator for every single calculation; the molecules of an uncoupled aggregate likewise
+    def fresh_of(spec, m, eUt):
+        out = {}
+        for b in pols:
+            for t2 in t2s:
+                a = build_aggregate(spec, m)
+                a.diagonalize()
+                pw = {}
+                tw = new_calculator(shape).calculate_one_system(t2, a, eUt, labs[b], pways=pw)
+                count["calc"] += 1
+                out[(b, t2)] = (read_response(tw), census(pw[str(t2)]))
+        return out
+
+    fresh = fresh_of(S.spec, mult, S.eUt)
+    parts = None
+    if S.parts is not None:
+        parts = []
+        for pn in S.parts:
+            P = ReuseSystem(case, pn)
+            parts.append(fresh_of(P.spec, dict(REUSE_SYSTEMS)[pn][3], P.eUt))
+    memo = {}
+
+    def evaluate(h):
+        """Runs the history h on a new aggregate object, then the response calculation; returns
+        {failure kind: (key tail, message)}."""
+        if h in memo:
+            return memo[h]
+        count["hist"] += 1
+        agg = new_aggregate()
+        for op in h:
+            hist_apply(op, agg, S, labs[pols[0]], shape)
+        holder.agg = agg
+        calc = new_calculator(shape)
+        res = reuse_step_pols(calc, holder, labs, pols, api, t2s)
+        count["calc"] += len(res)
+        fails = {}
+
+        def fail(kind, tail, msg):
+            if kind not in fails:
+                fails[kind] = (tail, msg)
+
+        for (b, t2), (sig, pws) in res.items():
+            where = "polarisations %s, t2=%g, api %s" % (b, t2, api)
+            fsig, fcen = fresh[(b, t2)]
+            sc = max(float(numpy.max(numpy.abs(sig["REPH"]))),
+                     float(numpy.max(numpy.abs(sig["NONR"]))), 1e-300)
+            if sig["_reread"] > TOL * sc:
+                fail("total/reread-differs", shape, "reading total, REPH, total, NONR again from "
+                     "the same response object differs from the first reads by %.3g; %s"
+                     % (sig["_reread"] / sc, where))
+            d = float(numpy.max(numpy.abs(sig["total"] - (sig["REPH"] + sig["NONR"])))) / sc
+            worst("hist-total-sum", d)
+            if not d <= TOL:
+                fail("total/sum", shape, "total differs from REPH+NONR by %.3g (relative); %s"
+                     % (d, where))
+            dfr, pfr = sig_dev(sig, fsig)
+            worst("hist-fresh", dfr)
+            if not dfr <= TOL:
+                vanish = all(float(numpy.max(numpy.abs(sig[sg]))) == 0.0 for sg in SIGNALS)
+                fail("fresh-differs", "%s%s" % (pfr, "/response-vanishes" if vanish else ""),
+                     "%s signal differs by %.3g (relative) from the one a new aggregate object "
+                     "gives%s; %s" % (pfr, dfr, " (all signals are identically zero)"
+                                      if vanish else "", where))
+            if parts is not None:
+                tot = {sg: sum(pf[(b, t2)][0][sg] for pf in parts) for sg in SIGNALS}
+                dun, pun = sig_dev(sig, tot)
+                worst("hist-uncoupled", dun)
+                # a result that already differs from the one of a new object is not reported
+                # a second time as a failure of additivity
+                if not dun <= TOL and dfr <= TOL:
+                    fail("uncoupled", "%s/%s/%s" % (shape, lwtag, pun),
+                         "%s signal of the uncoupled aggregate differs by %.3g (relative) from "
+                         "the sum over its molecules (new objects); %s" % (pun, dun, where))
+            if pws is None:
+                continue
+            cen = census(pws)
+            if cen != fcen:
+                fail("pathway-census", census_diff(cen, fcen),
+                     "generated pathways %s, a new aggregate object gives %s; %s"
+                     % (sorted(cen.items()), sorted(fcen.items()), where))
+            if pws:
+                rel, got, ref = pref_as_made(agg, pws, polvec(b))
+                worst("hist-pref", numpy.max(rel))
+                if not numpy.max(rel) <= TOL:
+                    ip = int(numpy.argmax(rel))
+                    fail("pref", "%s/value" % pws[ip].pathway_name,
+                         "pathway #%d %s transitions %s: pref=%r but sign*rho0*evf*<SO(3) "
+                         "average>=%r (rel.dev %.3g); %s"
+                         % (ip, pws[ip].pathway_name, pws[ip].transitions.tolist(),
+                            complex(got[ip]), complex(ref[ip]), float(rel[ip]), where))
+            led = {"R": 0.0, "NR": 0.0}
+            for p in pws:
+                led[p.pathway_type] = led[p.pathway_type] + calc.calculate_pathway(p, shape=shape)
+            for typ, nm in (("R", "REPH"), ("NR", "NONR")):
+                sc1 = max(float(numpy.max(numpy.abs(sig[nm]))), 1e-300)
+                d = float(numpy.max(numpy.abs(sig[nm] - led[typ]))) / sc1
+                worst("hist-ledger", d)
+                if not d <= TOL:
+                    fail("total/ledger", "%s/%s" % (nm, shape),
+                         "%s part differs from the sum over the generated %s-type pathways by "
+                         "%.3g (relative); %s" % (nm, typ, d, where))
+        dg = sum(float(numpy.max(numpy.abs(r["total"]))) for r, _ in res.values())
+        memo[h] = (fails, dg)
+        return memo[h]
+
+    def make_key(kind, hmin, tail):
+        if start != "diagonalized" and not hmin:
+            return "hist/%s/aggregate-not-diagonalized/%s" % (api, kind)
+        tag = "" if start == "diagonalized" else "/aggregate-not-diagonalized"
+        return "hist/%s%s/%s/after=%s/%s" % (api, tag, kind, ">".join(hmin) or "nothing", tail)
+
+    digest = 0.0
+    nfail = 0
+    # all histories of length 0 .. depth that start with the first request of the case (the
+    # empty history belongs to every case)
+    hists = [()]
+    for k in range(1, depth + 1):
+        hists += [(first,) + rest for rest in itertools.product(ops, repeat=k - 1)]
+    for h in hists:
+        fails, dg = evaluate(h)
+        digest += dg
+        if not fails:
+            continue
+        nfail += 1
+        for kind, (tail, msg) in fails.items():
+            # the shortest sub-history that shows the same kind of failure names the key
+            hmin, tmin, mmin = h, tail, msg
+            for sub in subsequences(h):
+                f2 = evaluate(sub)[0]
+                if kind in f2:
+                    hmin, (tmin, mmin) = sub, f2[kind]
+                    break
+            key = make_key(kind, hmin, tmin)
+            if key not in viol:
+                viol[key] = (key, "aggregate object (%s, %s) after the requests %s: %s "
+                             "[first seen in this case after %s]"
+                             % (name, start, " -> ".join(hmin) or "(none)", mmin,
+                                " -> ".join(h) or "(none)"),
+                             {"history": list(hmin), "seen_after": list(h), "system": name,
+                              "start": start})
+    fmax = [float(numpy.max(numpy.abs(fresh[(pols[0], t2)][0]["total"]))) for t2 in t2s]
+    nontrivial = bool(min(fmax) > 0.0 and count["hist"] >= depth)
+    outcome = ["hist", name, start, shape, api, case["lw"], case["dyn"], case["en"], first, depth,
+               round(digest, 6), nfail]
+    return {"nontrivial": nontrivial, "outcome": outcome, "violations": list(viol.values()),
+            "n": count["calc"] - 1,
+            "info": {"dev": dev, "unbuildable": 0, "npw": 0, "histories": count["hist"]}}
+
+
+def reuse_step_pols(calc, S, labs, pols, api, t2s):
+    """reuse_step for a given list of polarisation settings."""
+    out = {}
+    for b in pols:
+        if api == "one":
+            for t2 in t2s:
+                pw = {}
+                tw = calc.calculate_one_system(t2, S.agg, S.eUt, labs[b], pways=pw)
+                out[(b, t2)] = (read_response(tw), list(pw[str(t2)]))
+        else:
+            cont = calc.calculate_all_system(S.agg, S.eUt, labs[b])
+            for t2 in t2s:
+                tw = cont.get_spectrum(t2)
+                pws = list(calc.pathways) if t2 == t2s[-1] else None
+                out[(b, t2)] = (read_response(tw), pws)
+    return out
+
+
+# ------------------------------------------------------------------------------------------
 def eval_case(case):
     tier = case.get("_tier", "quick")
     if case["kind"] == "lab":
         return eval_lab(case, tier)
     if case["kind"] == "reuse":
         return eval_reuse(case, tier)
+    if case["kind"] == "wait":
+        return eval_wait(case, tier)
+    if case["kind"] == "hist":
+        return eval_hist(case, tier)
     return eval_sys(case, tier)
 
 
@@ -1102,6 +1558,33 @@ def sections(tier):
                             "lw": ["mixed"] if quick else ["mixed", "100"],
                             "shape": ["Gaussian", "Lorentzian"], "api": ["one", "all"],
                             "first": REUSE_NAMES[tier] + [BOOT]})
+    # the whole waiting-time axis inside every point
+    waitc = []
+    for n in (2, 3):
+        if quick:
+            ens, lws = ["hetero"], ["mixed"]
+        else:
+            ens = ["hetero", "homo"] if n == 2 else ["hetero", "cyclic"]
+            lws = ["100", "mixed"]
+        for J in (0, 80, -150):
+            if quick and n == 3 and J != 0:
+                continue
+            topos = ["chain"] if (n == 2 or J == 0) else ["chain", "full"]
+            dyns = ["free", "deph"] if J == 0 else (["deph", "relax"] if quick
+                                                    else ["free", "deph", "relax"])
+            waitc += product({"kind": ["wait"], "n": [n], "en": ens, "J": [J], "topo": topos,
+                              "lw": lws, "t2": [0.0], "shape": ["Gaussian", "Lorentzian"],
+                              "dyn": dyns})
+    waitc.sort(key=lambda c: (c["n"], abs(c["J"])))
+    sec["wait"] = waitc
+    # one case = context x state of the aggregate object x first request; inside: ALL
+    # continuations up to the depth of the tier
+    sec["hist"] = product({"kind": ["hist"], "depth": [HIST_DEPTH[tier]], "en": ["hetero"],
+                           "dyn": ["deph"], "lw": ["mixed"], "sys": HIST_SYSTEMS[tier],
+                           "start": HIST_STARTS,
+                           "shape": ["Gaussian"] if quick else ["Gaussian", "Lorentzian"],
+                           "api": ["one"] if quick else ["one", "all"],
+                           "first": HIST_OPS[tier]})
     for lst in sec.values():
         for c in lst:
             c["_tier"] = tier
@@ -1116,7 +1599,7 @@ def cases(tier):
 
 
 def run(run):
-    run.rule = ("three complete products: `lab` = all 5^4 polarisation four-tuples (inside each: all "
+    run.rule = ("five complete products: `lab` = all 5^4 polarisation four-tuples (inside each: all "
                 "4^4 dipole four-tuples x all side patterns of the tier); `sys` = size x site "
                 "energies x coupling x topology x line-width pattern x waiting time x line shape "
                 "x excited-state dynamics (inside each: all 5^4 polarisation four-tuples on every "
@@ -1160,8 +1643,33 @@ def run(run):
         "dipole-scale dimension: the factor multiplies the molecular transition dipoles before "
         "the aggregate is built; within one reuse history all systems carry the same factor; "
         "line widths, energies, couplings and dynamics are not scaled")
+    run.rule += ("; `wait` = size x site energies x coupling x topology x line widths x line shape "
+                 "x dynamics (inside each: ALL waiting times of an axis longer than the longest "
+                 "one-exciton coherence period x every base polarisation setting, with the "
+                 "additivity, census, pref and total oracles at every waiting time; non-trivial = a "
+                 "coherence element of the evolution superoperator visits all four quadrants of "
+                 "the complex plane along the axis and the signal is non-zero); `hist` = system x "
+                 "start state (built and diagonalised / only built) x line shape x api x first "
+                 "request on a new aggregate object (inside each: the empty history and ALL "
+                 "request sequences up to the history depth, then the response calculation, "
+                 "compared with a new aggregate object and with the reference oracles)")
+    run.assumptions.append(
+        "wait: the census reference counts an evolution-superoperator element as present if its "
+        "magnitude is >= 1e-4 and as absent if <= 1e-12 (the library screens at 1e-6); a waiting "
+        "time with an element in between is not given a census verdict (counted in the notes)")
+    run.assumptions.append(
+        "hist: the requests are made outside any basis / units context; a history starts from "
+        "an aggregate that was built and diagonalised (the state every other section of this "
+        "driver and every example script uses) or only built; the reference object is always "
+        "built and diagonalised by hand; the requests' own results are not checked here")
     rots = rotations(run.tier)
-    run.bounds = {"dipole scales (sys, reuse)": DIPSCALES[run.tier],
+    run.bounds = {"wait: t2 axes (start, points, step)": {str(k): list(v) for k, v in
+                                                          WAIT_AXIS[run.tier].items()},
+                  "hist: requests": HIST_OPS[run.tier], "hist: depth": HIST_DEPTH[run.tier],
+                  "hist: systems": HIST_SYSTEMS[run.tier],
+                  "hist: polarisations": HIST_POLS[run.tier],
+                  "hist: start states": HIST_STARTS,
+                  "dipole scales (sys, reuse)": DIPSCALES[run.tier],
                   "dipole scales (lab)": LAB_SCALES[run.tier],
                   "rotations on scaled systems": len(ROTS_SCALED[run.tier]),
                   "reuse: history depth": REUSE_DEPTH[run.tier],
@@ -1178,9 +1686,13 @@ def run(run):
         infos += run_grid(run, rotate(cs, run.seed), eval_case, section=name)
     devs = {}
     npw = 0
+    namb = 0
     for i in infos:
         for k, v in i["dev"].items():
             devs[k] = max(devs.get(k, 0.0), v)
         npw = max(npw, i.get("npw", 0))
+        namb += i.get("census_ambiguous", 0)
+    from mc.refmodels import pathway_census
     run.note(worst_deviation=devs, max_pathways_in_a_case=npw,
-             quadrature_selfcheck=ISO.selfcheck())
+             quadrature_selfcheck=ISO.selfcheck(), census_selfcheck=pathway_census.selfcheck(),
+             wait_points_without_census_verdict=namb)
